@@ -16,6 +16,7 @@ package h2
 
 import (
 	"fmt"
+	"sync/atomic"
 
 	"golang.org/x/net/http2"
 	"golang.org/x/net/http2/hpack"
@@ -61,6 +62,7 @@ type queuedDataFrame struct {
 	streamID  uint32
 	endStream bool
 	data      []byte
+	relay     *relay
 }
 
 func (f *queuedDataFrame) StreamID() uint32 {
@@ -72,7 +74,18 @@ func (f *queuedDataFrame) flowControlSize() int {
 }
 
 func (f *queuedDataFrame) send(dest *http2.Framer) error {
-	return dest.WriteData(f.streamID, f.endStream, f.data)
+	data := f.data
+	// The frame was sized when it was queued, the receiver may have lowered
+	// SETTINGS_MAX_FRAME_SIZE since: the limit in force when the frame is written counts.
+	if f.relay != nil {
+		for limit := int(atomic.LoadUint32(&f.relay.maxFrameSize)); limit > 0 && len(data) > limit; {
+			if err := dest.WriteData(f.streamID, false, data[:limit]); err != nil {
+				return err
+			}
+			data = data[limit:]
+		}
+	}
+	return dest.WriteData(f.streamID, f.endStream, data)
 }
 
 func (f *queuedDataFrame) String() string {
